@@ -4,6 +4,7 @@ from __future__ import annotations
 
 from asyncio import (
     FIRST_COMPLETED,
+    CancelledError,
     ensure_future,
     gather,
     get_running_loop,
@@ -1339,6 +1340,12 @@ class Executor(Generic[TContext]):
                     append_awaitable(index)
 
                 index += 1
+        except CancelledError:
+            # also close the iterator when the completion itself is cancelled
+            if early_return is not None:
+                with suppress_exceptions:
+                    await early_return()
+            raise
         except Exception:
             if early_return is not None:  # pragma: no branch
                 with suppress_exceptions:
